@@ -1,9 +1,9 @@
 from common import COMMON_TB
 
 CFG = {
-    "technique": "Lean 4 theorems (branch-horizon invariant incl. invalid children and Resurrect; binary-search invariants) + differential run: BranchRecoveryState API, the full recovery loop of a real wallet restored from seed against a fake chain, locateBirthdayBlock through the start-up path",
-    "level_text": "C16_branch_horizon, C16_branch_invariant_reachable, C16_resume_horizon hold for every window, every set of invalid children and every reachable branch state; C16_birthday_terminates holds for every timestamp sequence, C16_birthday_not_late / C16_birthday_skips_nothing for every monotone one. The batch loop (expandHorizons -> FilterBlocks -> extendFoundAddresses -> watched outpoints -> addRelevantTx, batches of 2000, resumable) is modelled and compared with the real wallet on generated chains (jumps of exactly W-1 and beyond, several payments per block, same-block and later spends, batch boundary, interrupted and resumed runs, locked and unlocked) together with a ground-truth oracle; its completeness theorem for all chains is NOT proved (C16_complete_step_partial is the per-branch core).",
-    "level_note": "PARTIAL: C16_complete (whole loop, all batchings/resume points) is checked by correspondence + ground-truth oracle + the driver's resume-independence self-check, not proved. Trusted: Lean kernel; hand model Model/Recovery.lean; hdkeychain/address derivation (truth addresses are derived with the real waddrmgr from the same seed); invalid child keys (probability 2^-127) are exercised only through the BranchRecoveryState API.",
+    "technique": "Lean 4 theorems (whole-loop completeness by a loop invariant over the block list; branch-horizon invariant incl. invalid children and Resurrect; binary-search invariants) + differential run: BranchRecoveryState API, the full recovery loop of a real wallet restored from seed against a fake chain, locateBirthdayBlock through the start-up path",
+    "level_text": "C16_complete: for every window W, every set of invalid child indices, every well-formed chain (unique tx ids, wallet outputs spent only later and at most once, paid indices valid) satisfying the look-ahead hypothesis (payments of a block measured against the next index after the EARLIER blocks), every batch size and every set of resume points (Resurrect), the modelled recovery loop (expandHorizons -> FilterBlocks -> extendFoundAddresses -> watched outpoints -> addRelevantTx) marks every paid wallet address used, leaves each branch's next index above it, records every transaction paying to or spending from the wallet at its height, and ends with exactly the expected credits and ledger balance. C16_complete_resumed: the same for a later recovery over an extended chain with any window, starting from the database any complete run left (C16_recover_leaves_pinv). C16_lookahead_is_tight / C16_same_block_jump_is_missed: a jump of W, and a jump inside one block relative to a payment of the same block, are outside the hypothesis and are missed (no re-filter of a block). C16_branch_horizon, C16_branch_invariant_reachable, C16_resume_horizon hold for every window, every set of invalid children and every reachable branch state; C16_birthday_terminates holds for every timestamp sequence, C16_birthday_not_late / C16_birthday_skips_nothing for every monotone one. The loop model is compared with the real wallet on generated chains (jumps of exactly W-1 and beyond, several payments per block, same-block and later spends, batch boundary, interrupted and resumed runs, locked and unlocked) together with a ground-truth oracle.",
+    "level_note": "Trusted: Lean kernel; hand model Model/Recovery.lean (tied to the real wallet by the differential run; locked/unlocked behave identically there, so the model has no lock state); hdkeychain/address derivation (truth addresses are derived with the real waddrmgr from the same seed); invalid child keys (probability 2^-127) are exercised on the real code only through the BranchRecoveryState API, the theorem covers them in the loop. KNOWN-FINDING retry-after-failed-batch (in-process retry after a failed batch) is outside the theorem: the model's batches do not fail.",
     "lean_props": ["BtcwVerif.Props.C16"],
     "engines": ["walletchain-recovery"],
     "trusted_base": COMMON_TB + [
@@ -13,7 +13,7 @@ CFG = {
     ],
     "assumptions": [
         "child indexes, windows and counts are Nat (uint32 in Go; indices stay far below 2^31)",
-        "look-ahead hypothesis as in DESIGN: every paid index i satisfies i < nextUnfound(before the block) + W, counted over valid children",
+        "look-ahead hypothesis (Recovery.LookAhead): every index i a block pays on a branch satisfies i < nextAfter(earlier blocks) + W, nextAfter = one above the highest index paid earlier (0 if none); chain well-formedness Recovery.ChainWF",
         "timestamps are whole seconds; birthdayBlockDelta = 7200 s is a parameter of the theorems",
     ],
 }
